@@ -155,7 +155,13 @@ class BaseValidator(object):
         self.location.set_cell(0)
         field_map = _create_field_map(self.cid.field_names, row)
         for check_name in self.cid.check_names:
-            self.cid.check_map[check_name].check_row(field_map, self.location)
+            try:
+                self.cid.check_map[check_name].check_row(field_map, self.location)
+            except errors.CheckError as error:
+                if error.location is None:
+                    # The check did not pass on the location to the error, so add it now.
+                    error.prepend_message("cannot accept row: check %s failed" % _compat.text_repr(check_name), self.location)
+                raise
 
     def close(self):
         """
